@@ -18,6 +18,9 @@ RULE = ("(i) exhaustive block-occupancy vectors: populations in {0..4} per block
         "rejection; distinct = SHA-1 of the case")
 ASSUMPTIONS = [
     "block membership is known by construction and recomputed exactly (vlib/blocks.py); the region is always inferred (as the classes do)",
+    "BlockKFold with equally populated occupied blocks: balancing is achievable (cumulative sums k*p always contain distinct cut points), so no fallback warning is accepted",
+    "partition_by_sum: a returned partition has every part sum within max(element) + parts of total/parts (the bound the KFold balance statement uses); refusing "
+    "(ValueError) is accepted except when there are more elements than parts and all elements are equal",
     "BlockKFold balance bound: |fold points - total/n_splits| <= largest block population + n_splits when balancing succeeded without warning",
     "BlockShuffleSplit candidates are the consecutive splits of one sklearn ShuffleSplit stream over the occupied block ids seeded by random_state "
     "(the documented procedure: 'generates an extra number of splits and selects the one ... closer to the desired amount')",
@@ -65,6 +68,10 @@ def check_partition(ctx, n, train, test, member, what):
     ctx.check(set(train.tolist()) | set(test.tolist()) == set(range(n)), "%s: train and test do not cover all %d samples", what, n)
     shared = set(member[train].tolist()) & set(member[test].tolist())
     ctx.check(not shared, "%s: blocks %s contribute points to both the training and the testing set", what, sorted(shared))
+
+
+def vals_first(d):
+    return next(iter(d.values()))
 
 
 def kfold_body(case, ctx):
@@ -115,6 +122,10 @@ def kfold_body(case, ctx):
         fold_points.append(test.size)
         ctx.check(np.array_equal(train, again[k][0]) and np.array_equal(test, again[k][1]), "BlockKFold not reproducible for random_state=%r", case["seed"])
     ctx.check(np.all(seen == 1), "test folds are not pairwise disjoint / do not cover every sample exactly once: counts %r", seen.tolist())
+    if case["balance"] and len(set(pop_of.values())) == 1:
+        # equally populated blocks: partitions with equal sums exist whatever the order of the blocks, balancing is achievable
+        ctx.check(not warned, "BlockKFold(balance=True) fell back to equal block counts although all %d occupied blocks hold %d points (n_splits=%d)",
+                  len(occupied), vals_first(pop_of), n_splits)
     if case["balance"] and not warned:
         bound = max(pop_of.values()) + n_splits
         for k, cnt in enumerate(fold_points):
@@ -277,6 +288,42 @@ def shuffle_body(case, ctx):
     ctx.nt(max(vals) >= 2 * min(vals) or len(vals) < len(case["pops"]))
 
 
+# ---------------------------------------------------------------- partition_by_sum (the balancing step of BlockKFold)
+def partition_lattice(tier):
+    alphabet, nmax = ([1, 2, 3, 7, 25], 5) if tier == "quick" else ([1, 2, 3, 4, 7, 25, 1000], 6)
+    for n in range(1, nmax + 1):
+        for arr in itertools.product(alphabet, repeat=n):
+            for parts in range(2, n + 2):
+                yield dict(array=list(arr), parts=parts)
+
+
+def partition_body(case, ctx):
+    arr = np.array(case["array"], dtype="int64")
+    parts = case["parts"]
+    keep = arr.copy()
+    try:
+        idx = vd.utils.partition_by_sum(arr, parts)
+    except ValueError:
+        ctx.check(np.array_equal(arr, keep), "partition_by_sum modified its input")
+        ctx.check(parts > arr.size or len(set(case["array"])) > 1,
+                  "partition_by_sum(%r, %d) found no partition although all elements are equal (cut points at multiples of the element always exist)", case["array"], parts)
+        ctx.label("too_many_parts" if parts > arr.size else "no_partition_found")
+        ctx.nt(True)
+        return
+    ctx.check(np.array_equal(arr, keep), "partition_by_sum modified its input")
+    ctx.check(parts <= arr.size, "partition_by_sum(%r, %d): more parts than elements was accepted: %r", case["array"], parts, idx)
+    idx = np.asarray(idx)
+    ctx.check(idx.shape == (parts - 1,) and np.issubdtype(idx.dtype, np.integer), "partition_by_sum must return parts-1 integer indices, got %r", idx)
+    ctx.check(np.all(idx > 0) and np.all(idx < arr.size) and np.all(np.diff(idx) > 0),
+              "partition_by_sum(%r, %d) = %r: the indices must be strictly increasing inside 1..n-1 (every part non-empty)", case["array"], parts, idx.tolist())
+    sums = [int(s.sum()) for s in np.split(arr, idx)]
+    ideal = arr.sum() / parts
+    ctx.check(max(abs(s - ideal) for s in sums) <= arr.max() + parts,
+              "partition_by_sum(%r, %d) = %r: part sums %r are farther than one element (+%d) from total/parts = %.2f", case["array"], parts, idx.tolist(), sums, parts, ideal)
+    ctx.label("partitioned")
+    ctx.nt(len(set(case["array"])) > 1)
+
+
 # ---------------------------------------------------------------- one splitter object, several data sets
 @st.composite
 def reuse_cases(draw):
@@ -342,6 +389,8 @@ SUBCHECKS = [
         doc="generated layouts (up to 5x5 blocks, populations 0..30, shape or spacing, shuffled sample order)"),
     Sub("shuffle_random", shuffle_body, strategy=shuffle_random(), quick=300, thorough=2500, shards_quick=2,
         doc="BlockShuffleSplit: partition, whole blocks, prescribed number of test blocks, best-balanced candidate, reproducibility, impossible sizes rejected"),
+    Sub("partition_lattice", partition_body, enumerate=partition_lattice, shards_quick=4,
+        doc="partition_by_sum over every small array and part count: parts-1 strictly increasing interior indices, part sums within one element of total/parts, or a refusal"),
     Sub("reuse", reuse_body, strategy=reuse_cases(), quick=300, thorough=2500, shards_quick=2,
         doc="one splitter object asked to split two different data sets: the second answer (splits, warnings or error) equals that of a fresh object with the same parameters"),
 ]
